@@ -72,8 +72,8 @@ func (s *shadow) targetClass(col int) string {
 		if s.fnoncmp[k] {
 			return "foreign-noncomparable"
 		}
-		if s.fkind[k] == "wrap" || s.fkind[k] == "wrapv" {
-			return "foreign-" + s.fkind[k]
+		if s.fkind[k] == "wrapv" {
+			return "foreign-wrapping-gerror"
 		}
 		return "foreign-comparable"
 	case col == len(s.vkind)+len(s.fkind):
@@ -305,9 +305,9 @@ func runC06(f *hx.Flags) {
 		return
 	}
 	r.RunCorpus()
-	n := r.N(1500)
+	n := r.N(5000)
 	if f.Tier == "thorough" {
-		n = r.N(60000)
+		n = r.N(100000)
 	}
 	for i := 0; i < n; i++ {
 		domain := r.Rng.Intn(12) != 0
